@@ -42,7 +42,8 @@ type learnerRecord struct {
 	NextLeaner int           // learner yielded by the terminal call, or -1
 	CreatedAt  int           // step number
 	TerminalAt int
-	checked    bool // terminal call compared with the history (model.checkLearnerOutcomes)
+	Classes    []uint32 // background learner: the size classes that existed when it was created
+	checked    bool     // terminal call compared with the history (model.checkLearnerOutcomes)
 }
 
 type selectorRecord struct {
@@ -124,6 +125,7 @@ func (l *scriptedLearner) Succeeded(duration time.Duration, sizeClasses []uint32
 		idx := l.plan.BgChoice % len(sizeClasses)
 		s := &scriptedSelector{a: l.a, plan: l.plan}
 		n := s.newLearner("background", idx)
+		n.rec.Classes = append([]uint32(nil), sizeClasses...)
 		l.rec.NextLeaner = n.rec.ID
 		return idx, l.plan.Expected, time.Duration(l.plan.TimeoutSec)*time.Second + bgMark, n
 	}
